@@ -108,7 +108,7 @@ JsonSchemaVersion.DRAFT_2020_12 = JsonSchemaVersion(
     "http://json-schema.org/draft/2020-12/schema#", "#/$defs/", None, False, True
 )
 JsonSchemaVersion.DRAFT_2019_09 = JsonSchemaVersion(
-    "http://json-schema.org/draft/2020-12/schema#",
+    "http://json-schema.org/draft/2019-09/schema#",
     "#/$defs/",
     to_json_schema_2019_09,
     False,
